@@ -15,6 +15,9 @@
   * `has_perm`: hidden attributes, the early `return False` when the entity has no rule for the permission, the
     per-session `perm_cache` READ with key `x` and WRITTEN with key `perm` (as coded), and the three loops with their
     `break`/`continue` structure (the reverse-side lookup sits inside the loop over the forward rules).
+  * `get_user_groups` / `get_user_roles` with the per-THREAD dicts `local.user_groups_cache` / `local.user_roles_cache`, and
+    `DBSessionContextManager._commit_or_rollback`, which clears both in its `finally:` on every kind of exit (`hasPermS`,
+    `exitSession`, `runThread`: histories of db_sessions with the world changing between sessions).
   * the iteration order of `entity._access_rules_[perm]` (a Python `set`) is arbitrary: the model iterates a list, and
     `Props/C34.lean` proves the answer invariant under permutation.
   Core Lean only.
